@@ -62,8 +62,10 @@ fn c01_o4_backdate_sound() {
             assert!(new.durability == c.new_d, "C02: backdate altered the durability");
         }
     }
-    kani::cover!(can && c.old_changed < c.new_changed);
-    kani::cover!(!can && !c.new_has_heads && c.old_final);
+    // witnesses are regions of the *input* space (not salsa's decisions), so that a more conservative salsa
+    // does not make this soundness harness look vacuous
+    kani::cover!(!c.new_has_heads && c.old_final && dur_index(c.new_d) >= dur_index(c.old_d) && c.old_changed < c.new_changed);
+    kani::cover!(!c.new_has_heads && c.old_final && dur_index(c.new_d) < dur_index(c.old_d));
     std::mem::forget(old);
     std::mem::forget(new);
 }
